@@ -162,9 +162,10 @@ class Flow(object):
             if pscope:
                 snames = pscope.names
                 if isinstance(self.scope, SourceScope):
-                    # a module body falls back to the builtin name while its
-                    # own binding has not been executed yet
-                    return MergedDict(snames)
+                    # a module body falls back to the names functions bind
+                    # through global declarations, then to the builtin name,
+                    # while its own binding has not been executed yet
+                    return MergedDict(self.scope._global_names, snames)
 
                 if isinstance(self.scope, ClassScope):
                     # so does a class body with the outer names
